@@ -430,7 +430,12 @@ class EqSystem(ReactionSystem):
             propagate=False,
             **kwargs
         )
-        sanity = [self._result_is_sane(init_concs, x) for x in xvecs]
+        sanity = []
+        varied_idx = self.as_substance_index(varied)
+        for value, x in zip(varied_data, xvecs):
+            varied_init_concs = np.array(init_concs, dtype=np.float64)
+            varied_init_concs[varied_idx] = value
+            sanity.append(self._result_is_sane(varied_init_concs, x))
 
         if _plot:
             import matplotlib.pyplot as plt
